@@ -1,31 +1,51 @@
 (* Serve.v — model of ONE connection's serve loop: server.go serveConnCounted, with its callers
    (Server.Serve + workerPool.workerFunc, Server.ServeConn) where they report connection states and
    close the connection, and hijackConnHandler.  Owner: C10 / C14 / C17; shared with the other
-   serve-loop properties.
+   serve-loop properties.  Models /repo as of 0c9b9fb (after the fix: commits up to that one).
 
    INTERFACE FOR IMPORTERS
-     scfg                   the Server fields the loop reads
+     scfg                   the Server fields the loop reads (ReduceMemoryUsage, StreamRequestBody, DisableKeepalive,
+                            CloseOnShutdown, KeepHijackedConns, MaxRequestsPerConn, which Expect handler is set)
      reader                 the client's byte stream as the server will see it: bytes already in the
                             bufio.Reader (buf), the chunks the following conn.Read calls return, and what
                             happens after the last chunk (Eof: the client closed; Open: nothing more arrives
                             and the read deadline fires)
-     framer                 THE REQUEST READER IS A PARAMETER (record `framer`): how a request head / body is
-                            recognised in the buffered bytes.  Model/ServeInst.v plugs in Model/ReqHead.v and
-                            Model/Body.v; `framer_ok` are the two laws the proofs need (a head consumes at least
-                            one and at most the buffered bytes; a body at most the buffered bytes).
-     env                    the oracles: handler (request number, request summary -> list hop),
-                            ExpectHandler / ContinueHandler answers, what s.stop reads at the two places it is read
-     hop                    handler operations (extensible; only what C10/C14/C17 need so far)
-     event                  St / ParseAt / Dispatch / Resp / Flush / Drop / Close / HijackEv / HijackClose / OutOfFuel
-     serve_iter             one iteration of the `for` loop
-     serve_loop             the loop (fuel = number of iterations; OutOfFuel is a distinct result)
-     serve_conn             entry point + loop + what the caller does afterwards
-                            (fuel = S (length of the stream): proved sufficient in Proof/ServeProof.v)
+     framer / framer_ok     THE REQUEST READER IS A PARAMETER: fhead (head parse of what is buffered: FhOk summary
+                            hn | FhMore | FhErr class), fbody (body framing behind the head: FbOk bn | FbMore | FbErr),
+                            head_end / body_end (what the reader reports when the source ends mid-message).
+                            framer_ok = the two laws the proofs need (0 < hn <= buffered, bn <= buffered).
+                            Model/ServeInst.v plugs in Model/ReqHead.v + Model/Body.v (inst_framer, inst_framer_ok
+                            in Proof/ServeInstProof.v).
+     req_sum                what the loop reads from a parsed head (IsHead, IsHTTP11, ConnectionClose, MayContinue,
+                            ContentLength, target)
+     env                    the oracles: handler : request number -> req_sum -> list hop; ExpectHandler status /
+                            ContinueHandler answer; what s.stop reads at the two places the loop reads it
+     hop                    handler operations SetStatus | SetConnClose | SetHdrConn v | HijackOp | HijackNoResp b |
+                            TimeoutOp | OtherOp (extensible: add constructors + cases in apply_hop)
+     event                  St state | ParseAt off avail | Dispatch num q | Resp r (written into bw) | Flush |
+                            Drop (writer released unflushed) | Close | HijackEv src buffered later_reads |
+                            HijackClose | OutOfFuel;   resp = kind, status, Connection values
+     req_hstate / close_decision / final_rhdr / resp_of
+                            the handler's effect, the connectionClose computation, the written Connection state
+     first_byte, serve_req, after_head, finish_request, serve_iter
+                            one iteration of the `for` loop in the order of the Go code
+     serve_loop             the loop (fuel = iterations; OutOfFuel is a distinct result)
+     serve_conn             entry (ViaServe | ViaServeConn) x admission (Admit | RejectPerIP | RejectConcurrency)
+                            + loop + what the caller does afterwards; fuel = S (stream length), proved
+                            sufficient (Proof/ServeProof.v serve_conn_fuel_ok)
+     hijack_in / hijack_late / ctx_released
+                            what the user of a hijacked connection reads inside / after the hijack handler
+   Proof/ServeProof.v offers: iter_decomp (normal form of one iteration), iter_next / sinv / linv (stream
+   invariant: buffered ++ future reads = suffix of the stream at l_off), and Section TracePred — a generic
+   induction for trace predicates (give: insensitivity to the iteration prelude, the error-response case, the
+   finish_request case) used for conn_ok / reasons_ok / http10_ok.
+   Check/ServeCheck.v offers: mk_scfg, mk_env, run (the concrete framer), wire, dispatched, hijack_of.
 
    What is NOT modelled (stated in props "assumptions"): write errors and SetDeadline errors (every `break`
-   on such an error), NextProto/TLS, HeaderReceived, a request-body stream the handler leaves unread
-   (StreamRequestBody: the loop is modelled as if the handler read the stream to its end), bufio buffer
-   size (ErrSmallBuffer is an error class the framer may return).
+   on such an error), NextProto/TLS, HeaderReceived, ErrorHandler, a request-body stream the handler leaves
+   unread or detaches (StreamRequestBody: the loop is modelled as if the handler read the stream to its end,
+   except for the timed-out handler, which closes), bufio buffer size (ErrSmallBuffer is an error class the
+   framer may return), `connectionClose` being declared outside the loop (every path that sets it leaves the loop).
 
    No proofs here (Proof/ServeProof.v). *)
 From FH Require Import Model.Base Gen.GenC10 Model.ConnOpt.
